@@ -128,6 +128,8 @@ err_t bignSign(octet sig[], const bign_params* params, const octet oid_der[],
 	// s1 <- (k - s1 - H) mod q
 	zzSubMod(s1, k, s1, ec->order, n);
 	wwFrom(k, hash, no);
+	if (wwCmp(k, ec->order, n) >= 0)
+		zzSub2(k, ec->order, n);
 	zzSubMod(s1, s1, k, ec->order, n);
 	// выгрузить s1
 	wwTo(sig + no / 2, no, s1);
@@ -256,6 +258,8 @@ err_t bignSign2(octet sig[], const bign_params* params, const octet oid_der[],
 	// s1 <- (k - s1 - H) mod q
 	zzSubMod(s1, k, s1, ec->order, n);
 	wwFrom(k, hash, no);
+	if (wwCmp(k, ec->order, n) >= 0)
+		zzSub2(k, ec->order, n);
 	zzSubMod(s1, s1, k, ec->order, n);
 	// выгрузить s1
 	wwTo(sig + no / 2, no, s1);
